@@ -151,6 +151,7 @@ Proof.
     pose proof (pg_cR_type_is c h pgk_Pages) as R1.
     destruct (pg_src_type_is c h pgk_Pages) as [c1 isp]. cbn [fst] in R1.
     destruct (pgc_err c1); [exact R1|]. destruct isp; [exact R1|].
+    destruct (pg_is_selfref (pd_store (pgc_src c1)) h); [eapply pg_cR_trans; [exact R1|apply pg_cR_core; reflexivity]|].
     pose proof (pg_cR_head h top c1) as R2.
     destruct (pg_reserve_head h top c1) as [c2 go]. cbn [fst] in R2.
     pose proof (pg_cR_trans _ _ _ R1 R2) as R12.
@@ -366,6 +367,7 @@ Proof.
     destruct (pg_type_is_fields c h pgk_Pages) as (_ & _ & F3 & _).
     destruct (pg_src_type_is c h pgk_Pages) as [c1 isp]. cbn [fst] in *.
     destruct (pgc_err c1); [exact W1|]. destruct isp; [exact W1|].
+    destruct (pg_is_selfref (pd_store (pgc_src c1)) h); [eapply pg_cW_eq; [| | |exact W1]; reflexivity|].
     assert (Htop1 : top = true -> pgc_tocopy c1 = []) by (intros H; rewrite F3; apply Htop, H).
     pose proof (pg_cW_head h top c1 W1 Htop1) as W2.
     destruct (pg_reserve_head h top c1) as [c2 go]. cbn [fst] in W2.
